@@ -164,13 +164,14 @@ def theorem_scope(res):
     return int(m.group(1)), int(m.group(2))
 
 
-def overrides(res):
-    """definitions whose binding is (transitively) user-asserted: `as` / `type` anywhere below"""
+def overrides(res, sound_ok=False):
+    """definitions whose binding is (transitively) user-asserted: `as` / `type` anywhere below.
+    sound_ok: assertions the generator made true of the serialised form (field flag `sound`) do not count."""
     by = {d["ident"]: d for d in res["defs"]}
     direct = set()
     for d in res["defs"]:
         fs = d["fields"] if d["kind"] == "struct" else [f for v in d["variants"] for f in v["fields"]]
-        if d.get("type") or d.get("as_") or any(f.get("type") or f.get("as_") for f in fs) or \
+        if d.get("type") or d.get("as_") or any((f.get("type") or f.get("as_")) and not (sound_ok and f.get("sound")) for f in fs) or \
                 any(v.get("type") or v.get("as_") for v in d.get("variants", [])):
             direct.add(d["ident"])
     changed = True
